@@ -64,9 +64,11 @@ type planOp struct {
 }
 
 type plan struct {
-	profile string
-	def     time.Duration
-	ops     []planOp
+	profile  string
+	noDefOpt bool // no SetDefaultExpire option (def must be 0)
+	capture  int  // 0 = no-op capture, 1 = SetCapture(nil), 2 = recording capture
+	def      time.Duration
+	ops      []planOp
 }
 
 type ent struct {
@@ -95,14 +97,29 @@ type traceRes struct {
 
 // ---------- generation ----------
 
-var ttlAlphabet = []time.Duration{bcache.NoExpire, bcache.DefaultExpire, 40 * ms, 120 * ms, 40 * ms, 120 * ms}
+var ttlAlphabet = []time.Duration{bcache.NoExpire, bcache.DefaultExpire, bcache.DefaultExpire, 40 * ms, 120 * ms, 40 * ms, 120 * ms}
 
+// every TTL kind newIterator distinguishes: NoExpire, DefaultExpire, positive (short, and occasionally huge),
+// other negatives
 func pickTTL(r *vhlib.Rng) time.Duration {
-	if r.Chance(1, 25) {
+	switch r.Intn(40) {
+	case 0, 1:
 		return -5 * ms
+	case 2:
+		return -time.Second
+	case 3:
+		return time.Hour
+	case 4:
+		return 8760 * time.Hour // a year: deadline still below 2^61 ns
 	}
 	return ttlAlphabet[r.Intn(len(ttlAlphabet))]
 }
+
+// cache configurations: the default expiry given to SetDefaultExpire. Substantial weight on the non-positive
+// ones (0 = none, NoExpire = -1ns, other negatives): DefaultExpire writes must then store WITHOUT expiry.
+var defAlphabet = []time.Duration{40 * ms, 120 * ms, 40 * ms, 0, 0, bcache.NoExpire, bcache.NoExpire, -5 * ms, -time.Hour}
+var defNonPositive = []time.Duration{0, bcache.NoExpire, -5 * ms, -time.Hour}
+
 func pickTimed(r *vhlib.Rng) time.Duration {
 	if r.Bool() {
 		return 40 * ms
@@ -126,7 +143,23 @@ type gen struct {
 	ops []planOp
 }
 
-func (g *gen) nv() int { g.val++; return g.val }
+func (g *gen) nv() int { g.val++; return g.val - 1 } // the first stored value is the zero value 0
+
+// defaultOps: every write kind with the DefaultExpire TTL kind (Set(k,v,0), SetDefault, SetIfAbsent(k,v,0),
+// Replace(k,v,0)), each followed by a look at the key
+func (g *gen) defaultOps() {
+	k := g.key()
+	for _, kind := range [][]int{{kSet, kSetDefault}, {kSetIfAbsent, kSetDefault}, {kReplace, kReplace}, {kSetIfAbsent, kSet}}[g.r.Intn(4)] {
+		if g.r.Bool() {
+			k = g.key()
+		}
+		if kind == kReplace && g.r.Bool() { // make sure there is something to replace: untimed or timed
+			g.add([]int{kSetNoExpire, kSet}[g.r.Intn(2)], k, pickTimed(g.r), 0)
+		}
+		g.add(kind, k, bcache.DefaultExpire, 0)
+		g.add([]int{kGetWithExpire, kGetWithExpire, kGet, kCount}[g.r.Intn(4)], k, 0, 0)
+	}
+}
 func (g *gen) add(kind, k int, ttl, pause time.Duration) {
 	g.ops = append(g.ops, planOp{kind: kind, k: k, v: g.nv(), ttl: ttl, pause: pause})
 }
@@ -212,9 +245,14 @@ var wLoad = []int{10, 2, 3, 5, 5, 2, 4, 14, 6, 1, 8, 4, 1, 12}
 
 func makePlan(r *vhlib.Rng, idx int) plan {
 	g := &gen{r: r}
-	defs := []time.Duration{0, 0, 40 * ms, 120 * ms}
-	pl := plan{def: defs[r.Intn(len(defs))]}
+	pl := plan{def: defAlphabet[r.Intn(len(defAlphabet))], capture: r.Intn(3)}
+	if pl.def == 0 && r.Bool() {
+		pl.noDefOpt = true // constructor default: no SetDefaultExpire option at all
+	}
 	n := r.Range(8, 25)
+	if r.Intn(5) < 2 { // in every profile: DefaultExpire writes of every kind on this configuration
+		g.defaultOps()
+	}
 	switch idx % 7 {
 	case 0:
 		pl.profile = "plain"
@@ -224,7 +262,8 @@ func makePlan(r *vhlib.Rng, idx int) plan {
 	case 1: // D24 shape: timed store, re-store without expiry, wait past the old deadline, sweep, look
 		pl.profile = "restore-without-expiry"
 		if r.Bool() {
-			pl.def = 0
+			pl.def = defNonPositive[r.Intn(len(defNonPositive))]
+			pl.noDefOpt = false
 		}
 		for i := r.Intn(3); i > 0; i-- {
 			g.random(false, wPlain)
@@ -249,8 +288,8 @@ func makePlan(r *vhlib.Rng, idx int) plan {
 		case 3:
 			g.add(kSet, k, -5*ms, 0)
 		case 4:
-			if pl.def == 0 {
-				g.add(kSetDefault, k, 0, 0)
+			if pl.def <= 0 { // SetDefault / Set(..., DefaultExpire) on a cache without a positive default: no expiry
+				g.add([]int{kSetDefault, kSet, kReplace}[r.Intn(3)], k, bcache.DefaultExpire, 0)
 			} else {
 				g.add(kReplace, k, -5*ms, 0)
 			}
@@ -290,6 +329,24 @@ func makePlan(r *vhlib.Rng, idx int) plan {
 		}
 	case 3:
 		pl.profile = "ifabsent-replace-deadlines"
+		if r.Bool() { // SetIfAbsent over an expired, not yet collected entry is blocked; after the lazy delete it succeeds
+			k := g.key()
+			g.add(kSet, k, 40*ms, 0)
+			g.add(kSetIfAbsent, k, pickTTL(r), 60*ms)
+			g.add([]int{kGetWithExpire, kReplace, kSweep}[r.Intn(3)], k, pickTTL(r), 0)
+			g.add(kSetIfAbsent, k, pickTTL(r), 0)
+			g.add(kReplace, k, bcache.DefaultExpire, 0)
+			g.add(kGetWithExpire, k, 0, 0)
+		}
+		if r.Bool() { // Replace with the default TTL kind over an untimed entry; Delete of an absent key; Count
+			k := g.key()
+			g.add(kSetNoExpire, k, 0, 0)
+			g.add(kReplace, k, bcache.DefaultExpire, 0)
+			g.add(kGetWithExpire, k, 0, 0)
+			g.add(kDelete, (k+1)%nKeys, 0, 0)
+			g.add(kDelete, (k+1)%nKeys, 0, 0)
+			g.add(kCount, 0, 0, 0)
+		}
 		for len(g.ops) < n {
 			g.random(true, wEdges)
 		}
@@ -467,8 +524,21 @@ func clamp(x, lo, hi int64) int64 {
 }
 
 func runTrace(pl plan) (res traceRes) {
-	c := bcache.New[int, int](bcomparator.IntComparator(),
-		bcache.SetDefaultExpire[int, int](pl.def), bcache.SetCapture[int, int](func(int, int) {}))
+	captured := 0
+	var capt func(int, int)
+	switch pl.capture {
+	case 0:
+		capt = func(int, int) {}
+	case 2:
+		capt = func(int, int) { captured++ }
+	}
+	var c *bcache.BCache[int, int]
+	if pl.noDefOpt {
+		c = bcache.New[int, int](bcomparator.IntComparator(), bcache.SetCapture[int, int](capt))
+	} else {
+		c = bcache.New[int, int](bcomparator.IntComparator(),
+			bcache.SetDefaultExpire[int, int](pl.def), bcache.SetCapture[int, int](capt))
+	}
 	base := time.Now()
 	tBase := base.UnixNano()
 	res.t0 = tBase
@@ -815,7 +885,8 @@ type tickerRes struct {
 
 func runTicker(r *vhlib.Rng) tickerRes {
 	const interval = 10 * ms
-	c := bcache.New[int, int](bcomparator.IntComparator(),
+	def := defNonPositive[r.Intn(len(defNonPositive))]
+	c := bcache.New[int, int](bcomparator.IntComparator(), bcache.SetDefaultExpire[int, int](def),
 		bcache.SetInternal[int, int](interval), bcache.SetCapture[int, int](func(int, int) {}))
 	live := map[int]int{}
 	n := r.Range(6, 14)
@@ -823,7 +894,18 @@ func runTicker(r *vhlib.Rng) tickerRes {
 	var calls []string
 	for k := 0; k < n; k++ {
 		v := 1000 + k
-		switch r.Intn(6) {
+		switch r.Intn(7) {
+		case 6: // default TTL kind on a cache without a positive default: stored without expiry
+			switch r.Intn(3) {
+			case 0:
+				c.Set(k, v, bcache.DefaultExpire)
+			case 1:
+				c.SetDefault(k, v)
+			case 2:
+				c.SetIfAbsent(k, v, bcache.DefaultExpire)
+			}
+			live[k] = v
+			calls = append(calls, fmt.Sprintf("Set/SetDefault/SetIfAbsent(%d,%d,DefaultExpire) on default %s", k, v, durStr(def)))
 		case 5: // timed, then an entry without expiry LOADED over it
 			c.Set(k, v, 40*ms)
 			if err := c.Load([]byte(fmt.Sprintf(`{"%d":{"Value":%d,"Expire":0}}`, k, v+700))); err != nil {
@@ -953,7 +1035,9 @@ func main() {
 		}
 		term := fmt.Sprintf("CTrace %s %d %d %s", vhlib.Z(int64(plans[i].def)), gran, r.t0, vhlib.List(steps))
 		w.Case(term, plans[i].profile, timed && len(r.steps) >= 8, labels,
-			map[string]interface{}{"profile": plans[i].profile, "default_expire": plans[i].def.String(), "t0_unixnano": base, "steps": desc})
+			map[string]interface{}{"profile": plans[i].profile, "default_expire": plans[i].def.String(),
+				"config":      fmt.Sprintf("SetDefaultExpire option given: %v; capture kind %d", !plans[i].noDefOpt, plans[i].capture),
+				"t0_unixnano": base, "steps": desc})
 	}
 	// real ticker
 	tres := make([]tickerRes, nTick)
@@ -971,6 +1055,18 @@ func main() {
 		w.Case(fmt.Sprintf("CTicker %s %s %s", vhlib.Nat(t.expected), vhlib.Nat(t.observed), vhlib.Nat(t.lost)),
 			"ticker", true, []string{"Count-after-10-intervals"}, t.detail)
 	}
+	defDist := map[string]int{}
+	for _, pl := range plans {
+		key := durStr(pl.def)
+		if pl.def == 0 {
+			key = "0"
+			if pl.noDefOpt {
+				key = "0 (no option)"
+			}
+		}
+		defDist[key]++
+	}
+	w.Notes["default_expire_of_traces"] = defDist
 	w.Notes["traces_run"] = nTraces
 	w.Notes["traces_kept"] = kept
 	w.Notes["traces_dropped"] = dropped
